@@ -410,6 +410,44 @@ impl Monitor for C20 {
                             }
                         }
                     }
+                    // ... and on ticks sampled over the whole supported range (derived from the event's salt, so a replay
+                    // repeats them): protocol bounds, powers of two and their neighbours, and pseudo-random ticks; for
+                    // each the price, the price one below and one above must convert back like the program's
+                    {
+                        let mut r = crate::rng::Rng::new(ev.salt ^ 0x7153_c20a);
+                        let mut ts: Vec<i32> = vec![decode::MIN_TICK, decode::MIN_TICK + 1, -1, 0, 1, decode::MAX_TICK - 1, decode::MAX_TICK];
+                        let bit = (r.next_u64() % 19) as u32;
+                        for s in [-1i32, 1] {
+                            for d in [-1i32, 0, 1] {
+                                ts.push((s * (1i32 << bit) + d).clamp(decode::MIN_TICK, decode::MAX_TICK));
+                            }
+                        }
+                        for _ in 0..6 {
+                            ts.push(decode::MIN_TICK + (r.next_u64() % (2 * decode::MAX_TICK as u64 + 1)) as i32);
+                        }
+                        for t in ts {
+                            cov.probe("sampled_tick_math_probes");
+                            let p = crate::model::sqrt_price_of_tick(t);
+                            let sp = std::panic::catch_unwind(|| sdk::tick_index_to_sqrt_price(t)).ok();
+                            if sp != Some(p) {
+                                out.push(viol("sdk_tick_math_differs", ev.idx, format!("tick {}: program price {} SDK price {:?}", t, p, sp)));
+                                break;
+                            }
+                            let mut bad = false;
+                            for q in [p.saturating_sub(1).max(decode::MIN_SQRT_PRICE), p, (p + 1).min(decode::MAX_SQRT_PRICE), p + (r.next_u64() as u128 % (p / 20_000 + 1))] {
+                                let q = q.clamp(decode::MIN_SQRT_PRICE, decode::MAX_SQRT_PRICE);
+                                let st = std::panic::catch_unwind(|| sdk::sqrt_price_to_tick_index(q)).ok();
+                                if st != Some(crate::model::tick_of_sqrt_price(q)) {
+                                    out.push(viol("sdk_tick_math_differs", ev.idx, format!("price {}: program tick {} SDK tick {:?}", q, crate::model::tick_of_sqrt_price(q), st)));
+                                    bad = true;
+                                    break;
+                                }
+                            }
+                            if bad {
+                                break;
+                            }
+                        }
+                    }
                     if sdk::sqrt_price_to_tick_index(pool.sqrt_price) != crate::model::tick_of_sqrt_price(pool.sqrt_price) {
                         out.push(viol("sdk_tick_math_differs", ev.idx, format!("price {}: program tick {} SDK tick {}", pool.sqrt_price, crate::model::tick_of_sqrt_price(pool.sqrt_price), sdk::sqrt_price_to_tick_index(pool.sqrt_price))));
                     }
